@@ -98,37 +98,166 @@ func (m *Mutex) Unlock() {
 	}
 }
 
-// RWMutex is modelled as a plain mutex plus reader count.
+// RWMutex is the virtual sync.RWMutex: readers share, a writer excludes, and - as in the Go runtime - a writer that
+// waits keeps NEW readers out (so a goroutine that read-locks recursively while a writer arrived in between blocks
+// for ever, which the deadlock detection then reports).
 type RWMutex struct {
-	mu      Mutex
+	epoch   uint64
+	id      uint64
+	writer  bool
 	readers int
+	wwait   map[*G]bool // goroutines blocked in Lock
+	relH    uint64
+	waiters []*G
+}
+
+func (m *RWMutex) init() {
+	w := W
+	if m.epoch != w.Epoch {
+		m.epoch = w.Epoch
+		m.id = w.newKey()
+		m.writer, m.readers, m.wwait, m.waiters, m.relH = false, 0, map[*G]bool{}, nil, 0
+	}
+}
+
+type rwLockOp struct {
+	m     *RWMutex
+	write bool
+}
+
+func (o *rwLockOp) attempt(w *World, g *G, alt int) bool {
+	m := o.m
+	if o.write {
+		if !m.writer && m.readers == 0 {
+			m.writer = true
+			delete(m.wwait, g)
+			g.Hist = mix(mix(g.Hist, mix(m.id, 5)), m.relH)
+			return true
+		}
+		m.wwait[g] = true
+		m.waiters = append(m.waiters, g)
+		return false
+	}
+	if !m.writer && len(m.wwait) == 0 {
+		m.readers++
+		g.Hist = mix(mix(g.Hist, mix(m.id, 7)), m.relH)
+		return true
+	}
+	m.waiters = append(m.waiters, g)
+	return false
+}
+func (o *rwLockOp) readyCases(w *World) []int { return nil }
+func (o *rwLockOp) info() OpInfo {
+	return OpInfo{Kind: "lock", Obj: fmt.Sprintf("rwmutex#%x", o.m.id&0xffff)}
+}
+
+func (m *RWMutex) release(write bool) {
+	m.init()
+	var pv interface{}
+	Visible("unlock", fmt.Sprintf("rwmutex#%x", m.id&0xffff), "", func() {
+		if write {
+			if !m.writer {
+				pv = "sync: Unlock of unlocked RWMutex"
+				return
+			}
+			m.writer = false
+		} else {
+			if m.readers == 0 {
+				pv = "sync: RUnlock of unlocked RWMutex"
+				return
+			}
+			m.readers--
+		}
+		if g := Cur(); g != nil {
+			g.Hist = mix(g.Hist, mix(m.id, 6))
+			m.relH = g.Hist
+		}
+		for _, g := range m.waiters {
+			g.state = gPending // re-attempt
+		}
+		m.waiters = nil
+	})
+	if pv != nil {
+		panic(pv)
+	}
 }
 
 // Lock takes the write lock.
-func (m *RWMutex) Lock() { m.mu.Lock() }
+func (m *RWMutex) Lock() {
+	if W == nil {
+		return
+	}
+	m.init()
+	W.yield(&rwLockOp{m: m, write: true})
+}
 
 // Unlock releases the write lock.
-func (m *RWMutex) Unlock() { m.mu.Unlock() }
+func (m *RWMutex) Unlock() {
+	if W == nil {
+		return
+	}
+	m.release(true)
+}
 
-// RLock takes the lock (readers are serialised: a sound over-approximation of
-// blocking behaviour is not needed by dtail, which has no RWMutex today).
-func (m *RWMutex) RLock() { m.mu.Lock() }
+// RLock takes a read lock.
+func (m *RWMutex) RLock() {
+	if W == nil {
+		return
+	}
+	m.init()
+	W.yield(&rwLockOp{m: m})
+}
 
-// RUnlock releases it.
-func (m *RWMutex) RUnlock() { m.mu.Unlock() }
+// RUnlock releases a read lock.
+func (m *RWMutex) RUnlock() {
+	if W == nil {
+		return
+	}
+	m.release(false)
+}
 
 // TryLock tries to take the write lock.
-func (m *RWMutex) TryLock() bool { return m.mu.TryLock() }
+func (m *RWMutex) TryLock() bool {
+	if W == nil {
+		return true
+	}
+	m.init()
+	ok := false
+	Visible("trylock", fmt.Sprintf("rwmutex#%x", m.id&0xffff), "", func() {
+		if !m.writer && m.readers == 0 {
+			m.writer, ok = true, true
+		}
+	})
+	return ok
+}
 
-// TryRLock tries to take the read lock.
-func (m *RWMutex) TryRLock() bool { return m.mu.TryLock() }
+// TryRLock tries to take a read lock.
+func (m *RWMutex) TryRLock() bool {
+	if W == nil {
+		return true
+	}
+	m.init()
+	ok := false
+	Visible("trylock", fmt.Sprintf("rwmutex#%x", m.id&0xffff), "", func() {
+		if !m.writer && len(m.wwait) == 0 {
+			m.readers++
+			ok = true
+		}
+	})
+	return ok
+}
+
+type rlocker struct{ m *RWMutex }
+
+func (r rlocker) Lock()   { r.m.RLock() }
+func (r rlocker) Unlock() { r.m.RUnlock() }
 
 // RLocker returns a Locker for the read side.
 func (m *RWMutex) RLocker() interface {
 	Lock()
 	Unlock()
 } {
-	return &m.mu
+	return rlocker{m}
 }
 
 // Swap, CompareAndSwap, CompareAndDelete of sync.Map (Go 1.20).
